@@ -125,18 +125,26 @@ func check(c *Case) []fail {
 		o, pk, hang := w.getPath(c, m, root, vl.UnHex(c.GP))
 		pan("GetPath/PathInMask", pk)
 		if hang {
-			fs = append(fs, fail{"hang:getpath-backslash-under-all", "GetPath/PathInMask does not terminate (a backslash token never advances the iterator and the loop `continue`s when the mask node is 'all')", "a result", "no return within 3 s"})
+			fs = append(fs, fail{"hang:getpath-backslash-under-all", "GetPath/PathInMask does not terminate (a backslash token never advances the iterator and the loop `continue`s when the mask node is 'all')", "a result", "no return within 1 s of CPU time"})
 		}
 		if o == "pathinmask-differs" {
 			fs = append(fs, fail{"pim:differs-from-getpath", "PathInMask and GetPath disagree", "equal", "different"})
 		}
-		if pk == "" && selOK && len(c.GPAP) > 0 {
+		if pk == "" && !hang && selOK && len(aps) > 0 && len(c.GPAP) > 0 {
 			exp := sel(c.Black, aps, c.GPAP)
 			got := strings.HasPrefix(o, "1:")
 			if got != exp {
 				key := "pim:other"
+				hasFStar := false
+				for _, p := range aps {
+					for _, st := range p {
+						hasFStar = hasFStar || st == "F*"
+					}
+				}
 				if c.GPTd {
 					key = "pim:typedef-not-unwrapped"
+				} else if hasFStar && !c.Black {
+					key = "pim:struct-star-takes-first-field-type"
 				} else if c.Black && endsWithStar(aps) {
 					key = "pim:black-terminal-star"
 				}
@@ -144,7 +152,7 @@ func check(c *Case) []fail {
 			}
 		}
 	case "json":
-		fs = append(fs, checkJSON(m, c.Steps, aps)...)
+		fs = append(fs, checkJSON(m, c.Steps, aps, selOK)...)
 	case "unmarshal":
 		um, _, pk := unmarshalDoc([]byte(vl.UnHex(c.Doc)))
 		pan("UnmarshalJSON", pk)
@@ -177,7 +185,7 @@ func check(c *Case) []fail {
 }
 
 // checkJSON: text stability, validity, round trip (queries answer identically), cached API.
-func checkJSON(m *fieldmask.FieldMask, steps []string, aps [][]string) []fail {
+func checkJSON(m *fieldmask.FieldMask, steps []string, aps [][]string, selOK bool) []fail {
 	var fs []fail
 	starKey := false
 	for _, p := range aps {
@@ -206,7 +214,14 @@ func checkJSON(m *fieldmask.FieldMask, steps []string, aps [][]string) []fail {
 		return append(fs, fail{"panic:" + pk, "the library panicked in UnmarshalJSON of its own output", "mask", "panic"})
 	}
 	if o != "ok" {
+		if bytes.HasPrefix(t1, []byte(`{"path":"$","type":"Invalid"`)) {
+			return append(fs, fail{"json:empty-mask-rejected", "UnmarshalJSON rejects MarshalJSON's output for a mask built from no path or only \"\" (root type \"Invalid\")", "mask", string(t1)})
+		}
 		return append(fs, fail{"json:own-output-rejected", "UnmarshalJSON rejects MarshalJSON's output", "mask", string(t1)})
+	}
+	if !selOK {
+		// masks built from mutated / conflicting paths: only totality and text stability are demanded
+		return fs
 	}
 	t3, _, _ := marshalText(um)
 	cls := func(k string) string {
@@ -580,6 +595,11 @@ func run(dir string, seed uint64, tier string) error {
 	ig := &idlGen{r: rn.r}
 	for i := 0; i < nRandomIDL; i++ {
 		idls = append(idls, ig.gen())
+	}
+	for _, c := range seeded() {
+		c := c
+		rn.out.Count("seeded")
+		rn.report(c, check(&c))
 	}
 	for _, idl := range idls {
 		w, err := world(idl)
